@@ -830,6 +830,12 @@ func callsTaggedRequires(P *Program, db *ContractDB, fn *ssa.Function, id string
 				}
 			}
 			if callee == nil {
+				// call of a function value: the contract of its named function type
+				key := ifaceKey(cc.Value.Type())
+				short := strings.ReplaceAll(strings.ReplaceAll(key, pkgTD, "testdirectory"), pkgGldap, "gldap")
+				if c, ok := db.ftypes[short]; ok && (requiresTagged(c, id) || hasTag(c.NoLocks, id)) {
+					return true
+				}
 				continue
 			}
 			if callee.Pkg != nil && ownPkg(callee.Pkg.Pkg) {
